@@ -5,8 +5,12 @@ layer for the Lean model driver (drv_compare).
 A *spec* (JSON-able) is
   {"dops": [{"name","bt","bl","phys","unit"}], "units": [{"name","display"}],
    "comparams": ["CP_a", ...],                       # comparam subset shared by all layers
-   "layers": [{"name","kind","parent": name|None,
+   "sdops": [{"name","members":[param...],"byte_size": int|None}],   # STRUCTUREs that VALUE parameters may link to (key "dop")
+   "layers": [{"name","kind","parent": name|None,    # single parent; or, more general,
+               "parents": [{"name", "ni_svcs": [short names], "ni_dops": [short names]}],   # PARENT-REFs with NOT-INHERITED-* lists
                "own_dops": [dop names defined in this layer], "structs": number of (unused) STRUCTUREs defined in this layer,
+               "dup_dops": [dop names defined *again* in this layer under the same short name (own ID)],
+               "own_sdops": [names of "sdops" defined in this layer],
                "cprefs": [[comparam name, protocol snref|None], ...],
                "services": [{"id","name","req":[param...],"pos":[[param...]...],"neg":[[param...]...]}]}]}
   param = {"name","kind": const|value|physconst|nrc|reserved|matching,
@@ -39,7 +43,7 @@ def _dop_xml(d, lname):
             f'<PHYSICAL-TYPE BASE-DATA-TYPE="{d["phys"]}"/>{unit}</DATA-OBJECT-PROP>')
 
 
-def _param_xml(p, dop_owner):
+def _param_xml(p, dop_id):
     k = p["kind"]
     sem = f' SEMANTIC="{p["sem"]}"' if p.get("sem") is not None else ""
     pos = f'<BYTE-POSITION>{p["bp"]}</BYTE-POSITION>' if p.get("bp") is not None else ""
@@ -51,9 +55,9 @@ def _param_xml(p, dop_owner):
         return f'<PARAM xsi:type="NRC-CONST"{sem}>{head}<CODED-VALUES>{vs}</CODED-VALUES>{_dct(p.get("bt", "A_UINT32"), p["bl"])}</PARAM>'
     if k == "value":
         d = f'<PHYSICAL-DEFAULT-VALUE>{p["default"]}</PHYSICAL-DEFAULT-VALUE>' if p.get("default") is not None else ""
-        return f'<PARAM xsi:type="VALUE"{sem}>{head}{d}<DOP-REF ID-REF="{dop_owner[p["dop"]]}.D.{p["dop"]}"/></PARAM>'
+        return f'<PARAM xsi:type="VALUE"{sem}>{head}{d}<DOP-REF ID-REF="{dop_id[p["dop"]]}"/></PARAM>'
     if k == "physconst":
-        return f'<PARAM xsi:type="PHYS-CONST"{sem}>{head}<PHYS-CONSTANT-VALUE>{p["val"]}</PHYS-CONSTANT-VALUE><DOP-REF ID-REF="{dop_owner[p["dop"]]}.D.{p["dop"]}"/></PARAM>'
+        return f'<PARAM xsi:type="PHYS-CONST"{sem}>{head}<PHYS-CONSTANT-VALUE>{p["val"]}</PHYS-CONSTANT-VALUE><DOP-REF ID-REF="{dop_id[p["dop"]]}"/></PARAM>'
     if k == "reserved":
         return f'<PARAM xsi:type="RESERVED"{sem}>{head}<BIT-LENGTH>{p["bl"]}</BIT-LENGTH></PARAM>'
     if k == "matching":
@@ -78,12 +82,18 @@ def spec_xml(spec, docname="DLC"):
     by_kind = {}
     # which layer defines which DOP (for ID construction); a DOP must be defined in the layer or an ancestor
     dop_owner = {}
+    dop_id = {}     # short name -> ODXLINK id that DOP-REFs use (the first layer defining the DOP / structure)
+    sdops = {d["name"]: d for d in spec.get("sdops", [])}
     for L in spec["layers"]:
         for dn in L.get("own_dops", []):
             dop_owner.setdefault(dn, L["name"])
+            dop_id.setdefault(dn, f'{L["name"]}.D.{dn}')
+        for sn in L.get("own_sdops", []):
+            dop_id.setdefault(sn, f'{L["name"]}.SD.{sn}')
     for L in spec["layers"]:
         ln = L["name"]
         own = [dops[dn] for dn in L.get("own_dops", []) if dop_owner[dn] == ln]
+        own += [dops[dn] for dn in L.get("dup_dops", []) if dop_owner.get(dn) != ln]
         used_units = sorted({d["unit"] for d in own if d.get("unit")})
         uxml = ""
         if used_units:
@@ -91,23 +101,28 @@ def spec_xml(spec, docname="DLC"):
             uxml = "<UNIT-SPEC><UNITS>" + "".join(
                 f'<UNIT ID="{ln}.U.{u}"><SHORT-NAME>{u}</SHORT-NAME><DISPLAY-NAME>{ud[u]["display"]}</DISPLAY-NAME></UNIT>' for u in used_units) + "</UNITS></UNIT-SPEC>"
         sxml = ""
-        if L.get("structs"):
+        own_sd = [sdops[sn] for sn in L.get("own_sdops", []) if dop_id[sn] == f"{ln}.SD.{sn}"]
+        if L.get("structs") or own_sd:
             sxml = "<STRUCTURES>" + "".join(
-                f'<STRUCTURE ID="{ln}.ST.{k}"><SHORT-NAME>st{k}</SHORT-NAME><PARAMS>{_param_xml({"name": "c", "kind": "const", "val": k, "bl": 8}, dop_owner)}</PARAMS></STRUCTURE>'
-                for k in range(L["structs"])) + "</STRUCTURES>"
+                f'<STRUCTURE ID="{ln}.ST.{k}"><SHORT-NAME>st{k}</SHORT-NAME><PARAMS>{_param_xml({"name": "c", "kind": "const", "val": k, "bl": 8}, dop_id)}</PARAMS></STRUCTURE>'
+                for k in range(L.get("structs") or 0)) + "".join(
+                f'<STRUCTURE ID="{ln}.SD.{sd["name"]}"><SHORT-NAME>{sd["name"]}</SHORT-NAME>'
+                + (f'<BYTE-SIZE>{sd["byte_size"]}</BYTE-SIZE>' if sd.get("byte_size") is not None else "")
+                + f'<PARAMS>{"".join(_param_xml(m, dop_id) for m in sd["members"])}</PARAMS></STRUCTURE>'
+                for sd in own_sd) + "</STRUCTURES>"
         ddds = (f'<DIAG-DATA-DICTIONARY-SPEC><DATA-OBJECT-PROPS>{"".join(_dop_xml(d, ln) for d in own)}</DATA-OBJECT-PROPS>{sxml}{uxml}'
                 f'</DIAG-DATA-DICTIONARY-SPEC>')
         svcs, reqs, poss, negs = [], [], [], []
         for s in L["services"]:
             sid = s.get("id", s["name"])
             rid = f"{ln}.RQ.{sid}"
-            reqs.append(f'<REQUEST ID="{rid}"><SHORT-NAME>RQ_{sid}</SHORT-NAME><PARAMS>{"".join(_param_xml(p, dop_owner) for p in s["req"])}</PARAMS></REQUEST>')
+            reqs.append(f'<REQUEST ID="{rid}"><SHORT-NAME>RQ_{sid}</SHORT-NAME><PARAMS>{"".join(_param_xml(p, dop_id) for p in s["req"])}</PARAMS></REQUEST>')
             pr, nr = "", ""
             for k, ps in enumerate(s.get("pos", [])):
-                poss.append(f'<POS-RESPONSE ID="{ln}.PR.{sid}.{k}"><SHORT-NAME>PR_{sid}_{k}</SHORT-NAME><PARAMS>{"".join(_param_xml(p, dop_owner) for p in ps)}</PARAMS></POS-RESPONSE>')
+                poss.append(f'<POS-RESPONSE ID="{ln}.PR.{sid}.{k}"><SHORT-NAME>PR_{sid}_{k}</SHORT-NAME><PARAMS>{"".join(_param_xml(p, dop_id) for p in ps)}</PARAMS></POS-RESPONSE>')
                 pr += f'<POS-RESPONSE-REF ID-REF="{ln}.PR.{sid}.{k}"/>'
             for k, ps in enumerate(s.get("neg", [])):
-                negs.append(f'<NEG-RESPONSE ID="{ln}.NR.{sid}.{k}"><SHORT-NAME>NR_{sid}_{k}</SHORT-NAME><PARAMS>{"".join(_param_xml(p, dop_owner) for p in ps)}</PARAMS></NEG-RESPONSE>')
+                negs.append(f'<NEG-RESPONSE ID="{ln}.NR.{sid}.{k}"><SHORT-NAME>NR_{sid}_{k}</SHORT-NAME><PARAMS>{"".join(_param_xml(p, dop_id) for p in ps)}</PARAMS></NEG-RESPONSE>')
                 nr += f'<NEG-RESPONSE-REF ID-REF="{ln}.NR.{sid}.{k}"/>'
             svcs.append(f'<DIAG-SERVICE ID="{ln}.S.{sid}"><SHORT-NAME>{s["name"]}</SHORT-NAME><REQUEST-REF ID-REF="{rid}"/>'
                         + (f"<POS-RESPONSE-REFS>{pr}</POS-RESPONSE-REFS>" if pr else "")
@@ -119,9 +134,18 @@ def spec_xml(spec, docname="DLC"):
                 + (f'<PROTOCOL-SNREF SHORT-NAME="{proto}"/>' if proto else "") + "</COMPARAM-REF>"
                 for i, (c, proto) in enumerate(L["cprefs"])) + "</COMPARAM-REFS>"
         par = ""
-        if L.get("parent"):
-            pk = next(x["kind"] for x in spec["layers"] if x["name"] == L["parent"])
-            par = f'<PARENT-REFS><PARENT-REF ID-REF="{L["parent"]}" xsi:type="{pk}-REF"/></PARENT-REFS>'
+        for ref in parent_refs(L):
+            pk = next(x["kind"] for x in spec["layers"] if x["name"] == ref["name"])
+            ni = ""
+            if ref.get("ni_svcs"):
+                ni += "<NOT-INHERITED-DIAG-COMMS>" + "".join(
+                    f'<NOT-INHERITED-DIAG-COMM><DIAG-COMM-SNREF SHORT-NAME="{x}"/></NOT-INHERITED-DIAG-COMM>' for x in ref["ni_svcs"]) + "</NOT-INHERITED-DIAG-COMMS>"
+            if ref.get("ni_dops"):
+                ni += "<NOT-INHERITED-DOPS>" + "".join(
+                    f'<NOT-INHERITED-DOP><DOP-BASE-SNREF SHORT-NAME="{x}"/></NOT-INHERITED-DOP>' for x in ref["ni_dops"]) + "</NOT-INHERITED-DOPS>"
+            par += f'<PARENT-REF ID-REF="{ref["name"]}" xsi:type="{pk}-REF">{ni}</PARENT-REF>'
+        if par:
+            par = f"<PARENT-REFS>{par}</PARENT-REFS>"
         kind = L["kind"]
         xml = (f'<{kind} ID="{ln}"><SHORT-NAME>{ln}</SHORT-NAME>{ddds}<DIAG-COMMS>{"".join(svcs)}</DIAG-COMMS>'
                f'<REQUESTS>{"".join(reqs)}</REQUESTS><POS-RESPONSES>{"".join(poss)}</POS-RESPONSES>'
@@ -150,19 +174,112 @@ def load(spec):
 
 
 # --------------------------------------------------------------------------- constant request prefix, from the spec alone
-def visible_services(spec, lname):
-    """service specs visible in layer `lname` after inheritance (a child overrides its parent by short name): {name: svc}"""
+def parent_refs(layer):
+    """the PARENT-REFs of a layer spec: [{"name", "ni_svcs", "ni_dops"}] ("parent": name is the single-parent short form)"""
+    if layer.get("parents") is not None:
+        return list(layer["parents"])
+    return [{"name": layer["parent"]}] if layer.get("parent") else []
+
+
+# inheritance priority of the layer kinds (ISO 22901-1 7.3.2.4: a more specific layer wins; ECU-SHARED-DATA wins over all)
+PRIO = {"PROTOCOL": 1, "FUNCTIONAL-GROUP": 2, "BASE-VARIANT": 3, "ECU-VARIANT": 4, "ECU-SHARED-DATA": 100}
+
+
+def visible_map(spec, lname, what):
+    """value inheritance computed from the spec alone: what a layer offers = its own objects, plus, through every PARENT-REF,
+    what that parent offers minus the short names listed as NOT-INHERITED *on that PARENT-REF*; the same short name reached
+    through several parents is taken from the parent layer of the highest priority; own objects override inherited ones.
+    what = "services" -> {short name: (defining layer, service spec)}; "dops" -> {short name: (defining layer, name)}"""
     by = {l["name"]: l for l in spec["layers"]}
-    chain = []
     x = by[lname]
-    while x is not None:
-        chain.append(x)
-        x = by.get(x.get("parent")) if x.get("parent") else None
-    seen = {}
-    for x in reversed(chain):
+    cands = {}
+    for ref in parent_refs(x):
+        par = by[ref["name"]]
+        excl = set(ref.get("ni_svcs" if what == "services" else "ni_dops") or [])
+        pr = PRIO[par["kind"]]
+        for name, v in visible_map(spec, par["name"], what).items():
+            if name in excl:
+                continue
+            if name not in cands or cands[name][0] < pr:
+                cands[name] = (pr, v)
+    out = {name: v for name, (_, v) in cands.items()}
+    if what == "services":
         for s in x["services"]:
-            seen[s["name"]] = s
-    return seen
+            out[s["name"]] = (lname, s)
+    else:
+        owner = {}
+        for l in spec["layers"]:
+            for dn in l.get("own_dops", []):
+                owner.setdefault(dn, l["name"])
+        for dn in x.get("own_dops", []):
+            if owner[dn] == lname:
+                out[dn] = (lname, dn)
+        for dn in x.get("dup_dops", []):
+            if owner.get(dn) != lname:
+                out[dn] = (lname, dn)
+    return out
+
+
+def visible_comparams(spec, lname):
+    """(comparam, protocol) pairs that apply to a layer: its own COMPARAM-REFs and those of all ancestors (an ECU-SHARED-DATA
+    layer has none and passes none on)"""
+    by = {l["name"]: l for l in spec["layers"]}
+    x = by[lname]
+    if x["kind"] == "ECU-SHARED-DATA":
+        return set()
+    out = {(c, pr) for c, pr in x.get("cprefs", [])}
+    for ref in parent_refs(x):
+        out |= visible_comparams(spec, ref["name"])
+    return out
+
+
+def visible_services(spec, lname):
+    """service specs visible in layer `lname` after inheritance: {name: svc}"""
+    return {name: svc for name, (_, svc) in visible_map(spec, lname, "services").items()}
+
+
+def inherits_from(spec, lname, target):
+    """does layer `lname` (transitively) have `target` as a parent"""
+    by = {l["name"]: l for l in spec["layers"]}
+    return any(r["name"] == target or inherits_from(spec, r["name"], target) for r in parent_refs(by[lname]))
+
+
+# --------------------------------------------------------------------------- static sizes, from the spec alone
+def dop_bits(spec, name):
+    """bit length of what a VALUE / PHYS-CONST parameter linked to `name` occupies: the coded type's BIT-LENGTH for a simple
+    DOP; for a STRUCTURE its BYTE-SIZE, else the bytes its members span (a member starts at its BYTE-POSITION or behind the
+    previous one and occupies whole bytes). None = unknown name."""
+    for d in spec.get("dops", []):
+        if d["name"] == name:
+            return d["bl"]
+    for sd in spec.get("sdops", []):
+        if sd["name"] == name:
+            if sd.get("byte_size") is not None:
+                return 8 * sd["byte_size"]
+            end, size = 0, 0
+            for m in sd["members"]:
+                bl = dop_bits(spec, m["dop"]) if m["kind"] in ("value", "physconst") else m["bl"]
+                if bl is None:
+                    return None
+                start = m["bp"] if m.get("bp") is not None else end
+                end = start + -(-bl // 8)
+                size = max(size, end)
+            return 8 * size
+    return None
+
+
+def is_struct(spec, name):
+    return any(sd["name"] == name for sd in spec.get("sdops", []))
+
+
+def users_of(spec, dopname):
+    """number of request/response parameters (of all layers) linked to the DOP / structure"""
+    n = 0
+    for l in spec["layers"]:
+        for s in l["services"]:
+            for loc in locs(s):
+                n += get_param(s, loc).get("dop") == dopname
+    return n
 
 
 def spec_prefix(spec, svc):
@@ -250,6 +367,8 @@ def apply_attr_edit(spec, p, attr, rng):
         p["sem"] = rng.choice([x for x in (None, "DATA", "SERVICE-ID", "ID") if x != old])
         return True
     if attr == "bitlen":
+        if k == "value" and is_struct(spec, p.get("dop")):
+            return resize_struct(spec, p["dop"], rng)
         if k not in ("const", "nrc", "reserved"):
             return False
         p["bl"] = rng.choice([x for x in (8, 16, 24, 32) if x != p["bl"]])
@@ -268,11 +387,52 @@ def apply_attr_edit(spec, p, attr, rng):
         if k not in ("value", "physconst"):
             return False
         cands = [d["name"] for d in spec["dops"] if d["name"] != p["dop"]]
+        if k == "value" and p.get("default") is None:
+            # a VALUE parameter without default may be typed by a STRUCTURE as well
+            sds = [d["name"] for d in spec.get("sdops", []) if d["name"] != p["dop"]]
+            if sds and (is_struct(spec, p["dop"]) or rng.random() < .5):
+                cands = sds + (cands if rng.random() < .5 else [])
         if not cands:
             return False
         p["dop"] = rng.choice(cands)
         return True
     raise ValueError(attr)
+
+
+def resize_struct(spec, name, rng):
+    """the bit length of a parameter typed by a STRUCTURE changes when the structure's size does. This is a single edit of
+    *that* parameter only when it is the structure's sole user; the size is changed through BYTE-SIZE, the bit length of a
+    constant / reserved member, or the DOP of a value member (whichever really changes the size)."""
+    if users_of(spec, name) != 1:
+        return False
+    sd = next(d for d in spec["sdops"] if d["name"] == name)
+    old = dop_bits(spec, name)
+    ops = ["byte-size", "member-bl", "member-dop", "member-added"]
+    rng.shuffle(ops)
+    for op in ops:
+        saved = copy.deepcopy(sd)
+        if op == "byte-size":
+            sd["byte_size"] = (old or 0) // 8 + rng.randint(1, 3)
+        elif op == "member-bl":
+            ms = [m for m in sd["members"] if m["kind"] in ("const", "reserved")]
+            if ms:
+                m = rng.choice(ms)
+                m["bl"] = rng.choice([x for x in (8, 16, 24, 32) if x != m["bl"]])
+        elif op == "member-dop":
+            ms = [m for m in sd["members"] if m["kind"] == "value"]
+            if ms:
+                m = rng.choice(ms)
+                cands = [d["name"] for d in spec["dops"] if d["bl"] != dop_bits(spec, m["dop"])]
+                if cands:
+                    m["dop"] = rng.choice(cands)
+        else:
+            sd["members"].append({"name": f"m{len(sd['members'])}", "kind": "reserved", "bp": None, "bl": rng.choice([8, 16]), "sem": None})
+        new = dop_bits(spec, name)
+        if new is not None and new != old:
+            return True
+        sd.clear()
+        sd.update(saved)
+    return False
 
 
 # --------------------------------------------------------------------------- canonical view of the tool's result
